@@ -186,6 +186,8 @@ def prop(e, cx):
         return "(" + " ∧ ".join(parts) + ")"
     if isinstance(e, ast.Constant) and isinstance(e.value, bool):
         return "True" if e.value else "False"
+    if isinstance(e, ast.Name) and e.id in cx.env and cx.env[e.id][1] == "Bool":
+        return f"({cx.env[e.id][0]} = true)"
     # truthiness of a number
     v, t = num(e, cx)
     if t in ("Rat", "Nat", "Int"):
@@ -301,6 +303,12 @@ def block(stmts, cx, ind="  "):
             cx.env[names[1]] = (b, "Pt")
             return block(rest, cx, ind)
         raise Unsupported(f"unsupported tuple assignment at {where(st, cx.fname)}")
+    if isinstance(st, ast.Assign) and len(st.targets) == 1 and isinstance(st.targets[0], ast.Name) \
+            and (isinstance(st.value, (ast.Compare, ast.BoolOp)) or (isinstance(st.value, ast.UnaryOp) and isinstance(st.value.op, ast.Not))):
+        nm = st.targets[0].id
+        c = prop(st.value, cx)
+        cx.env[nm] = (nm, "Bool")
+        return f"{ind}let {nm} : Bool := decide {c}\n" + block(rest, cx, ind)
     if isinstance(st, (ast.Assign, ast.AugAssign)):
         key, v, t = assign_expr(st, cx)
         nm = lean_name(key)
